@@ -553,19 +553,35 @@ func checkU23(c *Ctx, p *Prog, fn *ssa.Function) {
 	quantity := p.quantityParam(fn)
 	// loop shape
 	comps := sccs(fn.Blocks, blockSet(fn.Blocks))
-	if len(comps) != 1 {
+	// the for-all spelled with the standard helper: return !slices.ContainsFunc(combinations,
+	// func(combination []uint) bool { <divide into a fresh map>; return !<zero-share test> })
+	negBody := false
+	var cfBody *ssa.Function
+	var cfBind func(v ssa.Value) ssa.Value
+	if len(comps) == 0 {
+		cfBody, cfBind = p.containsFuncForAll(fn, combos)
+	}
+	if len(comps) != 1 && cfBody == nil {
 		c.R.Fail("U2", p.FnKey(fn), p.Pos(fn.Pos()), "UNDECIDED: expected exactly one loop over the combinations")
 		return
 	}
-	loop := blockSet(comps[0])
+	var loop map[*ssa.BasicBlock]bool
+	if cfBody != nil {
+		loop = map[*ssa.BasicBlock]bool{}
+		negBody = true
+	} else {
+		loop = blockSet(comps[0])
+	}
 	var header *ssa.BasicBlock
 	truesAfter := 0
-	for _, b := range comps[0] {
-		if boundedHeader(b, loop) {
-			header = b
+	if cfBody == nil {
+		for _, b := range comps[0] {
+			if boundedHeader(b, loop) {
+				header = b
+			}
 		}
 	}
-	if header == nil {
+	if header == nil && cfBody == nil {
 		p2 = append(p2, "the loop over the combinations is not a range loop")
 	}
 	for _, b := range fn.Blocks {
@@ -575,7 +591,9 @@ func checkU23(c *Ctx, p *Prog, fn *ssa.Function) {
 		}
 		cv, isC := ret.Results[0].(*ssa.Const)
 		if !isC {
-			p2 = append(p2, "non-constant result at "+p.InstrPos(ret))
+			if cfBody == nil {
+				p2 = append(p2, "non-constant result at "+p.InstrPos(ret))
+			}
 			continue
 		}
 		if constString(cv) == "true" && header != nil {
@@ -602,6 +620,7 @@ func checkU23(c *Ctx, p *Prog, fn *ssa.Function) {
 	if truesAfter == 0 && header != nil {
 		p2 = append(p2, "the predicate never answers true")
 	}
+	isQuantity := func(v ssa.Value) bool { return quantity != nil && v == ssa.Value(quantity) }
 	// the per-combination body: the loop's own blocks, or - when the loop only calls one boolean
 	// helper on the visited combination and leaves with false when it says false - that helper
 	ufn, region := fn, loop
@@ -656,6 +675,18 @@ func checkU23(c *Ctx, p *Prog, fn *ssa.Function) {
 			c.R.Funcs[p.FnKey(h)] = true
 		}
 	}
+	if cfBody != nil {
+		if len(sccs(cfBody.Blocks, blockSet(cfBody.Blocks))) != 0 {
+			c.R.Fail("U2", p.FnKey(fn), p.Pos(fn.Pos()), "UNDECIDED: the per-combination predicate handed to slices.ContainsFunc contains a loop")
+			return
+		}
+		ufn, region = cfBody, blockSet(cfBody.Blocks)
+		hc := cfBody.Params[0]
+		isCombo = func(v ssa.Value) bool { return v == ssa.Value(hc) }
+		outerQ := quantity
+		isQuantity = func(v ssa.Value) bool { return outerQ != nil && cfBind(v) == ssa.Value(outerQ) }
+		c.R.Funcs[p.FnKey(cfBody)] = true
+	}
 	// divider calls and tests inside the body
 	var divCalls []*ssa.Call
 	var zeroTests []*ssa.Call
@@ -694,7 +725,7 @@ func checkU23(c *Ctx, p *Prog, fn *ssa.Function) {
 		if !fresh {
 			p2 = append(p2, "divider at "+p.InstrPos(dc)+" is given a distribution that is shared between combinations")
 		}
-		if dc.Call.Args[1] == ssa.Value(quantity) {
+		if isQuantity(dc.Call.Args[1]) || (cfBody == nil && dc.Call.Args[1] == ssa.Value(quantity)) {
 			mainDiv = dc
 		}
 	}
@@ -730,7 +761,7 @@ func checkU23(c *Ctx, p *Prog, fn *ssa.Function) {
 			if !ok {
 				continue
 			}
-			if cv, isC := ret.Results[0].(*ssa.Const); isC && constString(cv) == "false" {
+			if cv, isC := ret.Results[0].(*ssa.Const); isC && constString(cv) == "false" && !negBody {
 				for _, e := range DomEdges(b) {
 					if p.edgeIsCallResult(e, func(f *ssa.Function) bool { return f == p.Callee(zt) }, false) {
 						okFalse = true
@@ -738,8 +769,21 @@ func checkU23(c *Ctx, p *Prog, fn *ssa.Function) {
 				}
 			}
 			// the test's answer handed back as the body's answer (return IsPrioritiesFilled(combination, distribution))
-			if ret.Results[0] == ssa.Value(zt) {
+			if ret.Results[0] == ssa.Value(zt) && !negBody {
 				okFalse = true
+			}
+			// the body is the "fails" predicate of ContainsFunc: a failed test makes it true
+			if negBody {
+				if base, neg := condOf(ret.Results[0]); base == ssa.Value(zt) && neg {
+					okFalse = true
+				}
+				if cv, isC := ret.Results[0].(*ssa.Const); isC && constString(cv) == "true" {
+					for _, e := range DomEdges(b) {
+						if p.edgeIsCallResult(e, func(f *ssa.Function) bool { return f == p.Callee(zt) }, false) {
+							okFalse = true
+						}
+					}
+				}
 			}
 		}
 		if !okFalse {
@@ -748,6 +792,10 @@ func checkU23(c *Ctx, p *Prog, fn *ssa.Function) {
 	}
 	c.R.Check(len(p3) == 0, "U3", p.FnKey(fn), p.Pos(fn.Pos()), "for-all over the visited combination on the fresh distribution", strings.Join(dedup(p3), "; "))
 	// U4 for predicates with a tolerance test
+	if len(tolCalls) > 0 && negBody {
+		c.R.Fail("U4", p.FnKey(fn), p.Pos(fn.Pos()), "UNDECIDED: tolerance test inside a slices.ContainsFunc predicate")
+		return
+	}
 	if len(tolCalls) > 0 {
 		tc := tolCalls[0]
 		if len(zeroTests) == 1 && !instrDominates(zeroTests[0], tc) {
@@ -938,4 +986,93 @@ func checkU7(c *Ctx, p *Prog, gen *ssa.Function) {
 		ap = append(ap, fmt.Sprintf("shape not recognised (fresh=%v copies=%v appends-last=%v)", fresh, copied, lastSet))
 	}
 	c.R.Check(len(ap) == 0, "U7", p.FnKey(adder), p.Pos(adder.Pos()), "fresh copy with the priority appended last", strings.Join(dedup(ap), "; "))
+}
+
+// containsFuncForAll: fn is `return !slices.ContainsFunc(<combos>, <literal>)`; returns the
+// literal and a function that maps a value inside it to the value of fn it stands for (a load of
+// a captured variable -> the parameter of fn that was captured).
+func (p *Prog) containsFuncForAll(fn *ssa.Function, combos *ssa.Parameter) (*ssa.Function, func(ssa.Value) ssa.Value) {
+	var call *ssa.Call
+	for _, b := range fn.Blocks {
+		for _, in := range b.Instrs {
+			if x, ok := in.(*ssa.Call); ok {
+				cal := p.Callee(x)
+				if cal == nil {
+					return nil, nil
+				}
+				name := p.funcDisplay(cal)
+				if i := strings.Index(name, "["); i >= 0 {
+					name = name[:i]
+				}
+				if name != "slices.ContainsFunc" || call != nil {
+					return nil, nil
+				}
+				call = x
+			}
+		}
+	}
+	if call == nil || len(fn.Blocks) != 1 {
+		return nil, nil
+	}
+	ret, isRet := fn.Blocks[0].Instrs[len(fn.Blocks[0].Instrs)-1].(*ssa.Return)
+	if !isRet || len(ret.Results) != 1 {
+		return nil, nil
+	}
+	if base, neg := condOf(ret.Results[0]); base != ssa.Value(call) || !neg {
+		return nil, nil
+	}
+	spilled := func(v ssa.Value) ssa.Value {
+		v = stripChangeType(v)
+		if ld, ok := v.(*ssa.UnOp); ok && ld.Op == token.MUL {
+			v = ld.X
+		}
+		al, ok := v.(*ssa.Alloc)
+		if !ok {
+			return v
+		}
+		var val ssa.Value
+		n := 0
+		for _, ref := range *al.Referrers() {
+			if st, ok := ref.(*ssa.Store); ok && st.Addr == ssa.Value(al) {
+				n++
+				val = st.Val
+			}
+		}
+		if n == 1 {
+			return val
+		}
+		return v
+	}
+	if spilled(call.Call.Args[0]) != ssa.Value(combos) {
+		return nil, nil
+	}
+	mc, isMC := call.Call.Args[1].(*ssa.MakeClosure)
+	if !isMC {
+		return nil, nil
+	}
+	body, _ := mc.Fn.(*ssa.Function)
+	if body == nil || len(body.Params) != 1 {
+		return nil, nil
+	}
+	bind := func(v ssa.Value) ssa.Value {
+		v = stripChangeType(v)
+		if ld, ok := v.(*ssa.UnOp); ok && ld.Op == token.MUL {
+			if fv, ok := ld.X.(*ssa.FreeVar); ok {
+				for i, f := range body.FreeVars {
+					if f == fv && i < len(mc.Bindings) {
+						return spilled(mc.Bindings[i])
+					}
+				}
+			}
+		}
+		if fv, ok := v.(*ssa.FreeVar); ok {
+			for i, f := range body.FreeVars {
+				if f == fv && i < len(mc.Bindings) {
+					return spilled(mc.Bindings[i])
+				}
+			}
+		}
+		return v
+	}
+	return body, bind
 }
